@@ -547,3 +547,7 @@ def run(ctx: Context) -> None:
     r13d(ctx)
     r13e(ctx)
     r13f(ctx)
+    from sa.rules import c14
+
+    # which rules receive the events of a file must not depend on the files before it
+    c14.dispatch_lists_frozen(ctx, "R13g")
